@@ -121,7 +121,7 @@ func nextCloserDeniedWithWork(
 ) (denied bool, secure bool, err error) {
 	for _, rr := range nsecSet {
 		n := rr.(*dns.NSEC)
-		if nsecCovers(n.Header().Name, n.NextDomain, nextCloser) {
+		if nsecDenies(n, nextCloser) {
 			return true, true, nil
 		}
 	}
